@@ -255,7 +255,10 @@ CHECKS['C12'] = dict(
           "_total_loss / _gradient call, observed by wrapping) is followed by the line-search machine of LSML.tla: start at "
           "the documented prior, stop when the gradient norm < tol, ten trials on the documented step grid, strictly best "
           "trial accepted, stop when none improves, n_iter_, result = last accepted point."),
-    note=("libm log is trusted (logdet through the Cholesky diagonal). 'Stopped before max_iter' is n_iter_ < max_iter."),
+    note=("libm log is trusted (logdet through the Cholesky diagonal). 'Stopped before max_iter' is n_iter_ < max_iter. "
+          "Open finding D29 (known_findings.json): with an SPD array prior of small scale (2^-18) the absolute trial-step grid "
+          "overshoots and the solver stops early far from stationarity; matched by clause AND signature prior_scale = small and "
+          "printed as KNOWN-FINDING; the same clause at unit scale is a violation."),
     technique="TLA+ line-search machine model-checked + objective/gradient certificate evaluated by TLC on recorded fits",
     ref="DESIGN.md section 5 C12")
 
